@@ -140,10 +140,11 @@ static void producer(void *arg)
 			if (open_t >= 0 && enabled) legal[n++] = OP_DISABLE;
 			if (open_t >= 0 && enabled && (!threaded || started)) legal[n++] = OP_LOG;
 			if (open_t >= 0 && last_op != OP_LINELEN) legal[n++] = OP_LINELEN;
-			if (open_t >= 0 && !badlen_done) legal[n++] = OP_BADLEN;
-			if (open_t >= 0 && file_target && !reopen_done) legal[n++] = OP_REOPEN_BAD;
 			if (open_t >= 0) legal[n++] = OP_CLOSE;
 			legal[n++] = OP_FINI;
+			/* later additions go last, so that recorded answer sequences keep their meaning */
+			if (open_t >= 0 && !badlen_done) legal[n++] = OP_BADLEN;
+			if (open_t >= 0 && file_target && !reopen_done) legal[n++] = OP_REOPEN_BAD;
 		}
 		op = legal[vp_choose(n, "history op")];
 		last_op = op;
